@@ -139,6 +139,7 @@ def check(pid, tier, replay=None):
             cap = 1500
         if len(behs) > cap:
             keep = lambda b: (b["mode"] in ("prim", "fuzz", "foreign") or b.get("present") in ("only", "defaults", "deepest")   # noqa: E731  systematic cases
+                              or (b.get("present") in ("holes", "emptylists") and b.get("leaf") == "small" and (b.get("seed", 0) - core.seed() * 1000) // 7919 == 1)   # once per type (found by the regression over older changes: their detection had come to depend on the random rest)
                               or any(m["tag"] < 0 or m["kind"] in ("strplain", "slicestr") for m in b.get("members") or [])
                               or len(b.get("members") or []) == 3)
             prim = [b for b in behs if keep(b)]
